@@ -120,6 +120,10 @@ JailOnlyByDowntime == [][\A v \in Vals : (lk.val[v].status # "Downgrade" /\ lk'.
 UnjailOnlyAfter == [][\A v \in Vals : (lk.val[v].status = "Downgrade" /\ lk'.val[v].status \in {"Pending", "Active"}) =>
                           (now' > lk.val[v].jailedUntil /\ AllGTE(lk'.val[v].locking, lk'.thr))]_vars
 
+\* C18: at every block boundary the indices and queues rebuilt from the validator / token records by export ; InitGenesis
+\* are exactly the incrementally maintained ones
+ReimportFixpoint == phase = "begin" => Reimport(lk) = lk
+
 \* observation variables do not distinguish states
 View == << lk, now, height, comet, halted, phase, hist.locked, hist.released, hist.granted + hist.fees - hist.claimed >>
 =============================================================================
